@@ -4,8 +4,7 @@ From Verif.C14 Require Import Model Spec.
 Import ListNotations.
 Open Scope Z_scope.
 
-Definition tm_default : timeouts :=
-  mkTm (20 * sec) (3600 * sec) (30 * sec) (40 * sec) (60 * sec) (600 * sec) (5 * sec).
+Definition tm_default : timeouts := default_timeouts.
 Definition est : leg := mkLeg true true false false.
 
 Definition kR : key := (17%N, 1%N).
@@ -14,9 +13,9 @@ Definition kN : key := (6%N, 3%N).
 (* a UDP NAT pair whose last packet hit the forward key (both entries stamped 100 s, conntrack.h 787/835), and an
    established TCP connection idle for more than an hour *)
 Definition w_ct : list (key * entry) :=
-  [ (kR, mkE KRev (100 * sec) dummy false false est est);
-    (kF, mkE KFwd (100 * sec) kR false false (mkLeg false false false false) (mkLeg false false false false));
-    (kN, mkE KNormal (200 * sec) dummy false false est est) ].
+  [ (kR, mkE KRev (100 * sec) dummy false 0 est est);
+    (kF, mkE KFwd (100 * sec) kR false 0 (mkLeg false false false false) (mkLeg false false false false));
+    (kN, mkE KNormal (200 * sec) dummy false 0 est est) ].
 Definition w_s0 : state := init w_ct (5000 * sec) 0.
 
 (* scanner judges F then R (both idle for 4900 s > 60 s), final loop, a reply packet hits the reverse key, the
@@ -29,7 +28,7 @@ Definition repaired : conf := mkConf tm_default true.
 Lemma split_pinned :
   let s := run pinned w_s0 w_trace in
   lookup kF (ct s) = None /\
-  lookup kR (ct s) = Some (mkE KRev (5000 * sec + 2) dummy false false est est).
+  lookup kR (ct s) = Some (mkE KRev (5000 * sec + 2) dummy false 0 est est).
 Proof. vm_compute. split; reflexivity. Qed.
 
 Lemma split_repaired :
@@ -49,9 +48,9 @@ Proof. intros cf [-> | ->]; vm_compute; reflexivity. Qed.
    by the second *)
 Definition kF2 : key := (17%N, 4%N).
 Definition w_shared : list (key * entry) :=
-  [ (kR, mkE KRev (100 * sec) dummy false false est est);
-    (kF, mkE KFwd (90 * sec) kR false false (mkLeg false false false false) (mkLeg false false false false));
-    (kF2, mkE KFwd (95 * sec) kR false false (mkLeg false false false false) (mkLeg false false false false)) ].
+  [ (kR, mkE KRev (100 * sec) dummy false 0 est est);
+    (kF, mkE KFwd (90 * sec) kR false 0 (mkLeg false false false false) (mkLeg false false false false));
+    (kF2, mkE KFwd (95 * sec) kR false 0 (mkLeg false false false false) (mkLeg false false false false)) ].
 Definition w_round (cf : conf) (order : list key) (s : state) : state :=
   clean_all cf (drain_all cf (run cf s (map Judge order))).
 
